@@ -74,6 +74,10 @@ def new_vec(kind, device, name, children):
     return f'<new{kind}Vector device="{device}" name="{name}">{"".join(children)}</new{kind}Vector>'
 
 
+IMPLEMENTATION_WORDS = ["attrib", "to_string", "to_xml", "to_dict", "from_xml", "from_string", "children", "from_device", "from_client", "tag", "text",
+                        "tail", "tag_name", "__class__", "__dict__", "self", "junk", "kwargs"]
+
+
 def catalogue():
     """[(label, xml, set of (vector name, element name) that may change)]"""
     out = []
@@ -173,6 +177,13 @@ def catalogue():
         ("wrong-child-kind", '<newTextVector device="DEV" name="TEXT_V"><defText name="T0">x</defText></newTextVector>', set()),
         ("switch-all-off-one-of-many", new_vec("Switch", "DEV", "SWITCH_V", [one_child("Switch", "S0", "Off")]), {("SWITCH_V", "S0")}),
     ]
+    # Well-formed messages with one attribute more than the protocol knows, named like something the implementation itself uses
+    # (a method, a flag, a field of the XML library).  A peer is free to send unknown attributes; they are to be ignored.
+    for word in IMPLEMENTATION_WORDS:
+        out.append((f"attribute-named-{word}:getProperties", f'<getProperties version="1.7" device="DEV" {word}="1"/>', set()))
+        out.append((f"attribute-named-{word}:newTextVector",
+                    f'<newTextVector device="DEV" name="TEXT_V" {word}="1"><oneText name="T0" {word}="">attr</oneText></newTextVector>', {("TEXT_V", "T0")}))
+        out.append((f"attribute-named-{word}:message", f'<message device="DEV" message="hi" {word}="x"/>', set()))
     # a validly named switch may flip its siblings through the property's rule
     fixed = []
     for label, xml, allowed in out:
@@ -342,6 +353,7 @@ async def session(ctx, case, fault, transport, position, frag):
                 ctx.count("hostile_messages_injected")
                 import time
                 cpu0 = time.thread_time()
+                other_mark = other.mark()
                 await conn.send(text, frag=frag)
                 cpu = time.thread_time() - cpu0
                 if cpu > 1.5:
@@ -353,6 +365,14 @@ async def session(ctx, case, fault, transport, position, frag):
                     m, e = tap.escaped[0]
                     ctx.violate(f"exception-escapes-router:{type(e).__name__}:{label.split('>')[0]}",
                                 f"{label}: {e!r} escaped Router.process_message", case, {"xml": text})
+                    return
+                try:
+                    leaked = [v[0] for v in other.received_views(other_mark) if v[0].startswith("new") or v[0] == "enableBLOB"]
+                except xmlsplit.SplitError:
+                    leaked = []
+                if leaked:
+                    ctx.violate(f"hostile-message-forwarded-to-another-client:{label.split('>')[0]}",
+                                f"{label}: the other client connection was sent {leaked}", case, {"xml": text})
                     return
                 after = snapshot(drivers, specs)
                 ctx.count("snapshots_compared")
